@@ -1,6 +1,6 @@
 (* Entry points for the correspondence checks of C01-C04 (harness/cfgcommon.py). *)
 From Coq Require Import NArith List Bool.
-From PV Require Import Py.PyAST Py.PySem Cfg.Flow Cfg.FlowSpec.
+From PV Require Import Py.PyAST Py.PySem Cfg.Flow Cfg.FlowSpec Cfg.Builder.
 Import ListNotations.
 
 (* per definition: (qualified name path, def line, dead statement ids, complexity (model), must-be-dead ids (spec),
@@ -25,3 +25,8 @@ Definition mccabe_at (m : block) (k0 : N) (dead : list N) : N :=
   | (_, _, body) :: _ => N.of_nat (mccabe dead body)
   | [] => 0%N
   end.
+
+(* graph-level model (Cfg/Builder.v): per definition (def line, dead ranges, complexity, start lines of dead statements) *)
+Definition build_module (m : block) : list (N * list (N * N) * N * list N) :=
+  map (fun d => match d with (_, k, body) =>
+         let g := build body in (k, dead_ranges g, N.of_nat (complexity_g g), dead_stmt_lines g) end) (module_defs m).
